@@ -139,16 +139,31 @@ func solveOne(o *Obligation, idx int, cfg SolverCfg) *Result {
 	r.File = file
 	var lastOut string
 	var errs []string
-	for si, sd := range solvers {
-		timeout := cfg.TimeoutSec
-		if o.Negate {
-			// vacuity probes only need to catch quick contradictions
-			if si > 1 {
-				break
-			}
-			timeout = 2
+	// escalation: a short round over all solvers first, then the full timeout
+	type attempt struct {
+		si      int
+		timeout int
+	}
+	var plan []attempt
+	short := 3
+	if cfg.TimeoutSec <= short {
+		short = cfg.TimeoutSec
+	}
+	if o.Negate {
+		plan = []attempt{{0, 2}}
+	} else {
+		for _, si := range []int{0, 2, 1} {
+			plan = append(plan, attempt{si, short})
 		}
-		ans, out, secs := runSolver(sd, timeout, file)
+		if cfg.TimeoutSec > short {
+			for _, si := range []int{0, 2, 1} {
+				plan = append(plan, attempt{si, cfg.TimeoutSec})
+			}
+		}
+	}
+	for _, at := range plan {
+		si, sd := at.si, solvers[at.si]
+		ans, out, secs := runSolver(sd, at.timeout, file)
 		r.Seconds += secs
 		switch ans {
 		case "unsat":
@@ -198,7 +213,7 @@ func solveOne(o *Obligation, idx int, cfg SolverCfg) *Result {
 		r.Solver = "none-refuted"
 		return r
 	}
-	if len(errs) == len(solvers) {
+	if len(errs) >= len(plan) {
 		r.Status = ToolError
 		r.Output = strings.Join(errs, " | ")
 		return r
